@@ -220,6 +220,9 @@ def step (line : String) : String :=
   match splitCase line with
   | none => "? bad-line"
   | some (id, inp, obs) =>
+    -- a request that never completed / a panic in framework code outside a handler: violations by themselves
+    if obs == ["T"] then verdict id false false "-" "request-never-completed" else
+    if obs == ["P"] then verdict id false false "-" "a-panic-escaped-ServeHTTP" else
     match inp with
     | "R" :: rest => stepR id rest obs
     | "A" :: rest => stepA id rest obs
